@@ -217,7 +217,9 @@ theorem C13.stream_emit_as_modelled (s : Uniflow.Stream.Strm) (e : Uniflow.Strea
 
 /-! ## outlines -/
 
-/-- `store.Watch` (the stream is appended to `store.streams`; a goroutine removes it once it is done), `Insert`, `Update`, `Delete`, `emit`. -/
+/-- `store.Watch` (the filter is validated before the stream exists – so `emit`'s `strm.Match` cannot fail on a document
+that has already been stored: the malformed-watcher defect repaired in repo 7f54b88 –, the stream is appended to
+`store.streams`; a goroutine removes it once it is done), `Insert`, `Update`, `Delete`, `emit`. -/
 theorem C13.store_outline_as_modelled :
     outline_store_Watch = [
       "s.mu.Lock()",
@@ -226,6 +228,8 @@ theorem C13.store_outline_as_modelled :
       "if filter != nil",
       "  var err error",
       "  if f, err = types.Cast[types.Map](types.Marshal(filter)); err != nil",
+      "    return nil, err",
+      "  if err := validate(f); err != nil",
       "    return nil, err",
       "strm := newStream(f)",
       "s.streams = append(s.streams, strm)",
